@@ -87,6 +87,11 @@ def cases(tier, seed):
     # ---- FeatureIDE
     fide_models = [m for m in structs if fide_fragment(m)] + [DEEP1, DEEP2]
     fide_models += [rt.deviation(rt.deviation(CAR5, 2, ('abstract', None)), 0, ('abstract', None)), rt.deviation(CAR5, 1, ('name', 'a <b> & "c"'))]
+    for nm in ('Cafe\u0301', '2k\u2126', ' lead', 'x\u2028y', 'Sensor\u0663'):
+        mm = rt.deviation(CAR5, 1, ('name', nm))
+        fide_models.append((mm[0], (('c1', ('IMPLIES', nm, 'Dc')),)))
+    from . import families
+    fide_models += [m for m in families.models() if fide_fragment(m)]
     fide_models += [_with(CAR5, ts) for ts in _ctc_lists(('Bb', 'Dc', 'Ad', 'Ee'))]
     fide_models += [_with(CAR8, [_chain('AND', N7)]), _with(CAR8, [_chain('OR', N7), ('NOT', _chain('AND', N7[:6]), None)]),
                     _with(CAR8, [('IMPLIES', _chain('OR', N7[:5]), _chain('AND', N7[1:]))])]
@@ -97,7 +102,7 @@ def cases(tier, seed):
         for k in (full if (rich and tier == 'thorough') or (rich and i % 4 == 0) else cover):
             yield ('FIDE', m, k)
     # ---- FaMa XML
-    fama_models = structs + [DEEP1, DEEP2] + [_with(CAR5, ts) for ts in _ctc_lists(('Bb', 'Dc', 'Ad', 'Ee'), reqs=True)[-2:-1]]
+    fama_models = structs + [DEEP1, DEEP2] + list(families.models()) + [_with(CAR5, ts) for ts in _ctc_lists(('Bb', 'Dc', 'Ad', 'Ee'), reqs=True)[-2:-1]]
     fama_models.append(_with(CAR5G, [('REQUIRES', 'Bb', 'Dc'), ('EXCLUDES', 'Ad', 'Ee'), ('REQUIRES', 'Ee', 'Bb')]))
     fama_models.append(_with(CAR5G, [('REQUIRES', 'Bb', 'Dc'), ('EXCLUDES', 'Ad', 'Ee'), ('REQUIRES', 'Bb', 'Dc')]))
     casey = M(F('Fa', [R(0, 1, [F('Cache')]), R(0, 1, [F('cache')]), R(0, 1, [F('Disk')]), R(0, 1, [F('disk')])]))
@@ -106,7 +111,7 @@ def cases(tier, seed):
         for ci in range(len(FAMA_CHOICES)):
             yield ('FAMA', m, (ci,))
     # ---- AFM
-    afm_models = [m for m in structs if afm_fragment(m) and sh.size(m) > 1] + [DEEP1, DEEP2]
+    afm_models = [m for m in structs if afm_fragment(m) and sh.size(m) > 1] + [DEEP1, DEEP2] + [m for m in families.models() if afm_fragment(m)]
     afm_models += [_with(CAR5, ts) for ts in _ctc_lists(('Bb', 'Dc', 'Ad', 'Ee'), reqs=True)]
     for av in afm_attr_alphabet():
         afm_models.append(rt.deviation(CAR5, 1, ('attr', av)))
@@ -123,7 +128,10 @@ def cases(tier, seed):
     for i in range(len(AFM_MUST_RAISE)):
         yield ('AFMX', i)
     # ---- Glencoe
-    glen_models = [m for m in structs if glencoe.in_fragment(m)] + [DEEP1, DEEP2]
+    glen_models = [m for m in structs if glencoe.in_fragment(m)] + [DEEP1, DEEP2] + [m for m in families.models() if glencoe.in_fragment(m)]
+    for nm in ('Cafe\u0301', '\u212b', 'a\ufeffb'):
+        mm = rt.deviation(CAR5G, 1, ('name', nm))
+        glen_models.append((mm[0], (('c1', ('IMPLIES', nm, 'Dc')),)))
     glen_models += [_with(CAR5G, ts) for ts in _ctc_lists(('Bb', 'Dc', 'Ad', 'Ee'), xor=True)]
     glen_models += [_with(CAR8G, [_chain('AND', N7)]), _with(CAR8G, [_chain('OR', N7), ('NOT', _chain('AND', N7[:6]), None)]),
                     _with(CAR8G, [('IMPLIES', _chain('OR', N7[:5]), _chain('AND', N7[1:]))])]
